@@ -8,6 +8,19 @@ import (
 	"cffverif/progen"
 )
 
+// propOf maps a population name to the property whose violations it reports.
+func propOf(p string) string {
+	switch p {
+	case "C03scale":
+		return "C03"
+	case "C10scale", "C10scale8":
+		return "C10"
+	case "C19scale":
+		return "C19"
+	}
+	return p
+}
+
 func hasPredOrFB(p *progen.Prog) bool {
 	if p.Flow == nil {
 		return false
@@ -45,8 +58,8 @@ func eligible(prop string, p *progen.Prog) bool {
 		return emitters(p) > 0
 	case "C03scale":
 		return p.Par != nil && len(p.Par.Colls) > 0
-	case "C10scale", "C10scale8":
-		if p.Par == nil {
+	case "C10scale", "C10scale8", "C19scale":
+		if p.Par == nil || (prop == "C19scale" && p.Par.Emitters == 0) {
 			return false
 		}
 		for _, c := range p.Par.Colls {
@@ -166,7 +179,7 @@ func Generate(rng *rand.Rand, prop, tier string, gomaxprocs int) *Desc {
 	d := &Desc{Engine: "l2", Prop: prop, GOMAXPROCS: gomaxprocs}
 	progs := eligibleProgs(prop)
 	nexec := 1
-	if prop == "C03scale" || prop == "C10scale" || prop == "C10scale8" {
+	if prop == "C03scale" || prop == "C10scale" || prop == "C10scale8" || prop == "C19scale" {
 		return generateScale(rng, prop, tier, gomaxprocs, progs)
 	}
 	switch r := rng.Intn(10); {
@@ -486,6 +499,10 @@ func generateScale(rng *rand.Rand, prop, tier string, gmp int, progs []int) *Des
 	d := &Desc{Engine: "l2", Prop: prop, GOMAXPROCS: gmp}
 	pi := progs[rng.Intn(len(progs))]
 	p := programs[pi].P
+	if p.Par == nil {
+		// the corpus holds no program of the shape this population needs: ordinary runs instead
+		return Generate(rng, propOf(prop), tier, gmp)
+	}
 	x := ExecD{Prog: pi, TaskOut: map[int]int{}, PredOut: map[int]int{}, Len: map[int]int{}, Colls: map[int]*CollD{}}
 	x.Conc = 1 + rng.Intn(4)
 	x.Bools = [2]bool{rng.Intn(2) == 0, false}
@@ -501,9 +518,9 @@ func generateScale(rng *rand.Rand, prop, tier string, gmp int, progs []int) *Des
 		switch {
 		case prop == "C10scale8":
 			n = 257 + rng.Intn(600)
-		case prop == "C10scale" && c.End != nil && !large:
+		case (prop == "C10scale" || prop == "C19scale") && c.End != nil && !large:
 			n, large = 70000+rng.Intn(4000), true
-		case prop == "C10scale":
+		case prop == "C10scale" || prop == "C19scale":
 			n = rng.Intn(300)
 		}
 		cd := &CollD{Fail: map[int]int{}}
